@@ -67,6 +67,8 @@ def impl_cmp(name, a, b, rawf=None):
         h = "1" if hash(A) == hash(B) else "0"
     except TypeError:
         h = "x"
+    except Exception:  # noqa: BLE001 — a hash that raises something else: reported as an operator error
+        h = "E"
     if rawf is not None:
         try:
             r = rawf(A, B)
